@@ -374,6 +374,34 @@ def run_combine(ctx, pairs, model_ok, tag):
         for clause, text, extra in combine_concl(d1, d2, m):
             ctx.fail('conclusion', 'combine_mesh: ' + text, case=dict(case, clause=clause, **extra), concrete=True)
         exprs.append('enc_cmesh (combine_mesh %s %s)' % (cmesh_term(d1), cmesh_term(d2)))
+    # histories: the SAME first mesh object is merged again with another mesh (a body combined with several counterparts);
+    # merging must be a pure function of its inputs: the inputs and earlier results stay as they were, and the second
+    # result satisfies the same conclusions
+    plist = list(pairs)
+    for i in range(0, len(plist), 3):
+        d1, d2 = plist[i]
+        d3 = plist[(i + 1) % len(plist)][1]
+        m1, m2, m3 = build_mesh(d1), build_mesh(d2), build_mesh(d3)
+        before1 = enc_impl_mesh(m1)
+        mA, _ = Mesh.combine_mesh((m1, np.zeros((len(d1['coords']), 2))), (m2, np.ones((len(d2['coords']), 2))))
+        encA = enc_impl_mesh(mA)
+        mB, _ = Mesh.combine_mesh((m1, np.zeros((len(d1['coords']), 2))), (m3, np.ones((len(d3['coords']), 2))))
+        ctx.count('evaluations')
+        ctx.count('combine_histories')
+        case = dict(part='combine', history='merge(m1,m2) then merge(m1,m3) with the same m1 object', mesh1=d1, mesh2=d2, mesh3=d3)
+        if enc_impl_mesh(m1) != before1:
+            ctx.fail('conclusion', 'combine_mesh: merging changed its first input mesh (its sets/blocks differ after the call)', case=case, concrete=True)
+        if enc_impl_mesh(mA) != encA:
+            ctx.fail('conclusion', 'combine_mesh: an earlier merged mesh changed when its first input was merged again', case=case, concrete=True)
+        for clause, text, extra in combine_concl(d1, d3, mB):
+            ctx.fail('conclusion', 'combine_mesh (second merge re-using the first mesh): ' + text, case=dict(case, clause=clause, **extra), concrete=True)
+        got = {k: len(np.asarray(v).ravel()) for k, v in mB.blocks.items()}
+        want = {}
+        for dd in (d1, d3):
+            for k, v in dd['blocks'].items():
+                want[k] = want.get(k, 0) + len(v)
+        if got != want:
+            ctx.fail('conclusion', 'combine_mesh (second merge re-using the first mesh): block sizes %r, expected %r' % (got, want), case=case, concrete=True)
     if not model_ok:
         return
     res = C.coq_eval(IMPORTS, exprs, 'C13c' + tag, shard=40)
